@@ -10,6 +10,8 @@
 import ChessVerif.Proofs.SearchGo
 import ChessVerif.Proofs.SearchRoot
 import ChessVerif.Proofs.SearchDemo
+import ChessVerif.Proofs.SearchScoreDemo
+import ChessVerif.Proofs.SearchFinalAbort
 
 namespace ChessVerif.Props.C06
 open ChessVerif Search
@@ -98,5 +100,111 @@ example (K : Keys) : Final K Board.empty := Or.inl (by
 example (K : Keys) (L : Limits) (clock : Clock) (fuel : Nat) (e : Engine Unit) :
     (go (demoComp K) L clock fuel e Board.empty).st.board = Board.empty :=
   (go_board_restored (demoComp K) L clock (demo_laws K) fuel e Board.empty noMen_empty 0).1
+
+/-! ## Score range, the null move without the ghost flag, final roots
+
+  Added after the repairs D8 (repo 161d312: quiescence checks abort before its fail-high store) and
+  D9 (repo 2ab22cc: the search clamps the static evaluation into the mate band), both mirrored in
+  Model/Search.lean (`qAfter`, `evaluate`).  The theorems below replace the ghost hypothesis
+  `anomaly = false` of `go_null_only_if_final_partial` by laws about the components (`ScoreLaws`:
+  table values within ±Inf as an INVARIANT `TTok` of the persistent state; reverse futility / null
+  move only with `staticEval ≥ beta`; LMR not before the second quiet move; `0 ≤ WindowSize ≤ 100`;
+  a measure bounding the quiescence depth) plus ONE run-level hypothesis `GoSane`: every window the
+  aspiration loop re-searches the root with is int16-safe (`RootWin`).  `EvalRange` is no hypothesis:
+  `evaluate_range` proves it of the clamp for an arbitrary raw evaluation.
+
+  Why `C06_full_null_only_if_final` (above) stays a `def`: it is NOT a theorem of the skeleton, and
+  was not true of the engine —
+  (1) without the table invariant: D8 (`go nodes 1` on the successor, then `go depth 1` on a
+      single-reply root answered `bestmove 0000`); without the evaluation bound: D9 (nine queens);
+  (2) without `GoSane`: `factor` doubles in int16 at every re-search (search.go:62-67); after nine
+      consecutive re-searches of one iteration (chains of 10 searches do occur on the real engine:
+      stale mate score, then nine fail-highs) a window bound can leave the range in which
+      `beta + d*RFPScoreFactor` does not wrap, and reverse futility then returns `staticEval < beta`
+      at the root.  In-range scores alone do not exclude the sequence
+      `s = 9956, nine fail-lows, fail-high at beta = 10000 → beta = 32528`. -/
+
+/-- `EvalRange`, now a theorem: the evaluation the search uses lies strictly inside the mate band
+    `(-Inf+MaxPlies, Inf-MaxPlies)`, whatever the raw `eval.Eval` returns. -/
+theorem eval_range (c : Comp σ π) (b : Board) : (-10000 : Int) + 64 < evaluate c b ∧ evaluate c b < (10000 : Int) - 64 :=
+  evaluate_range c b
+
+/-- Every value `alphaBeta` returns un-aborted lies in `[-Inf, Inf]`, and `alphaBeta` keeps the table
+    invariant on EVERY path, aborted or not (every store is behind an abort check) — for every fuel,
+    depth, node type, ply `0..63`, workable window and state with sound tables. -/
+theorem alphaBeta_value_in_range (c : Comp σ π) (L : Limits) {Good : Board → Prop} {TTok : σ → Prop} {μ : Board → Nat}
+    (hl : Laws c Good) (sl : ScoreLaws c Good TTok μ) (fuel : Nat) (a b : Score) (d ply : Int) (nt : NodeType) (s : St σ)
+    (hg : Good s.board) (h0 : 0 ≤ ply) (h1 : ply ≤ 63) (hw : WinOK a b) (htt : TTok s.ps) :
+    TTok (alphaBeta c L fuel a b d ply nt s).2.ps ∧
+      ((alphaBeta c L fuel a b d ply nt s).2.aborted = false → InR (alphaBeta c L fuel a b d ply nt s).1) :=
+  alphaBeta_range c L hl sl fuel a b d ply nt s hg h0 h1 hw htt
+
+/-- the same for `quiescence` (plies that cannot wrap the int8 counter). -/
+theorem quiescence_value_in_range (c : Comp σ π) (L : Limits) {Good : Board → Prop} {TTok : σ → Prop} {μ : Board → Nat}
+    (hl : Laws c Good) (sl : ScoreLaws c Good TTok μ) (fuel : Nat) (a b : Score) (ply : Int) (s : St σ)
+    (hg : Good s.board) (h0 : 0 ≤ ply) (h1 : ply + (μ s.board : Int) ≤ 111) (hw : WinOK a b) (htt : TTok s.ps) :
+    TTok (quiescence c L fuel a b ply s).2.ps ∧
+      ((quiescence c L fuel a b ply s).2.aborted = false → InR (quiescence c L fuel a b ply s).1) :=
+  quiescence_range c L hl sl fuel a b ply s hg h0 h1 hw htt
+
+/-- `TTok` is an invariant of engine states: it survives every `go` — completed, stopped at any
+    poll, out of budget at any node, out of fuel (this is the content of the D8 repair). -/
+theorem go_keeps_table_invariant (c : Comp σ π) (L : Limits) (clock : Clock) {Good : Board → Prop} {TTok : σ → Prop}
+    {μ : Board → Nat} (hl : Laws c Good) (sl : ScoreLaws c Good TTok μ) (fuel : Nat) (e : Engine σ) (b : Board)
+    (hg : Good b) (nodes0 : Int) (hd : 1 ≤ L.depth) (htt : TTok e.ps) (hsane : GoSane c L clock fuel e b nodes0) :
+    TTok (go c L clock fuel e b nodes0).engine.ps :=
+  (go_score c L clock hl sl fuel e b hg nodes0 hd htt hsane).1
+
+/-- The null move is returned only if the root is final — for every depth limit ≥ 1, every limit
+    combination, every abort point, and with NO hypothesis on fuel or on the ghost flag. -/
+theorem go_null_only_if_final (c : Comp σ π) (L : Limits) (clock : Clock) {Good : Board → Prop} {TTok : σ → Prop}
+    {μ : Board → Nat} (hl : Laws c Good) (sl : ScoreLaws c Good TTok μ) (fuel : Nat) (e : Engine σ) (b : Board)
+    (hg : Good b) (nodes0 : Int) (hd : 1 ≤ L.depth) (htt : TTok e.ps) (hsane : GoSane c L clock fuel e b nodes0)
+    (hnull : (go c L clock fuel e b nodes0).move = 0) : Final c.keys b :=
+  (go_score c L clock hl sl fuel e b hg nodes0 hd htt hsane).2.1 hnull
+
+/-- A search that runs to completion (the abort flag is never raised) on a final root returns the
+    null move with score 0, or with the mated score `-Inf` for a checkmated root. -/
+theorem go_final_score (c : Comp σ π) (L : Limits) (clock : Clock) {Good : Board → Prop} {TTok : σ → Prop}
+    {μ : Board → Nat} (hl : Laws c Good) (sl : ScoreLaws c Good TTok μ) (fuel : Nat) (e : Engine σ) (b : Board)
+    (hg : Good b) (nodes0 : Int) (hd : 1 ≤ L.depth) (htt : TTok e.ps) (hsane : GoSane c L clock fuel e b nodes0)
+    (hfin : Final c.keys b) (hdone : (go c L clock fuel e b nodes0).st.aborted = false) :
+    (go c L clock fuel e b nodes0).move = 0 ∧
+      ((go c L clock fuel e b nodes0).score = 0 ∨
+        (b.inCheck b.stm = true ∧ MoveGen.playable c.keys b = [] ∧ (go c L clock fuel e b nodes0).score = -Inf)) :=
+  (go_score c L clock hl sl fuel e b hg nodes0 hd htt hsane).2.2 hfin hdone
+
+/-- The same with "runs to completion" spelled as in `C06_full_final_score`: no stop channel, no hard
+    budget, fuel not exhausted (then the abort flag cannot have been raised: `go_aborted_fuel`).
+    Compared with the `def`, the hypotheses `ScoreLaws`, `TTok e.ps` and `GoSane` remain: they are
+    needed for a STALEMATED root only (reverse futility / null move can return before the move loop;
+    a checkmated root is in check, a drawn root returns before anything else). -/
+theorem go_final_score_completed (c : Comp σ π) (L : Limits) (clock : Clock) {Good : Board → Prop} {TTok : σ → Prop}
+    {μ : Board → Nat} (hl : Laws c Good) (sl : ScoreLaws c Good TTok μ) (fuel : Nat) (e : Engine σ) (b : Board)
+    (hg : Good b) (nodes0 : Int) (hd : 1 ≤ L.depth) (htt : TTok e.ps) (hsane : GoSane c L clock fuel e b nodes0)
+    (hstop : L.stop = none) (hnodes : L.nodes = -1) (hfin : Final c.keys b)
+    (hfuel : (go c L clock fuel e b nodes0).st.fuelOut = false) :
+    (go c L clock fuel e b nodes0).move = 0 ∧
+      ((go c L clock fuel e b nodes0).score = 0 ∨
+        (b.inCheck b.stm = true ∧ MoveGen.playable c.keys b = [] ∧ (go c L clock fuel e b nodes0).score = -Inf)) := by
+  refine go_final_score c L clock hl sl fuel e b hg nodes0 hd htt hsane hfin ?_
+  cases hab : (go c L clock fuel e b nodes0).st.aborted
+  · rfl
+  · rw [go_aborted_fuel c L clock fuel e b nodes0 hstop hnodes hab] at hfuel; cases hfuel
+
+/-- non-vacuity: the score laws hold for `demoComp` on the boards without men (no table: `TTok` is
+    `True`), `GoSane` holds for a run, and the board without men is a final root -/
+example (K : Keys) (L : Limits) (clock : Clock) (e : Engine Unit) :
+    ScoreLaws (demoComp K) NoMen (fun _ => True) (fun _ => 0) ∧ GoSane (demoComp K) L clock 0 e Board.empty :=
+  ⟨demo_scoreLaws K, demo_goSane K L clock e Board.empty⟩
+
+example (K : Keys) (L : Limits) (clock : Clock) (e : Engine Unit) (hd : 1 ≤ L.depth)
+    (h : (go (demoComp K) L clock 0 e Board.empty).move = 0) : Final K Board.empty :=
+  go_null_only_if_final (demoComp K) L clock (demo_laws K) (demo_scoreLaws K) 0 e Board.empty noMen_empty 0 hd trivial
+    (demo_goSane K L clock e Board.empty) h
+
+/-- the windows of the first searches are root windows: `(-Inf-1, Inf+1)` and `(s-W, s+W)` -/
+example : RootWin (-Inf - 1) (Inf + 1) ∧ RootWin (wrapS16 (-9990 - 44)) (wrapS16 (-9990 + 44)) := by decide
+
 
 end ChessVerif.Props.C06
